@@ -1060,17 +1060,11 @@ impl Discovery {
   pub fn handle_subscription_reader(&mut self, read_history: Option<GuidPrefix>) {
     let drds: Vec<Sample<DiscoveredReaderData, GUID>> =
       match self.dcps_subscription.reader.into_iterator() {
+        // The iterator TAKES the unread samples out of the reader, so every one of them
+        // must be processed here, also when we were asked to look at one participant only:
+        // a sample of another participant that is skipped now would never be seen again.
         Ok(ds) => ds
           .map(|d| d.map_dispose(|g| g.0)) // map_dispose removes Endpoint_GUID wrapper around GUID
-          .filter(|d|
-              // If a participant was specified, we must match its GUID prefix.
-              match (read_history, d) {
-                (None, _) => true, // Not asked to filter by participant
-                (Some(participant_to_update), Sample::Value(drd)) =>
-                  drd.reader_proxy.remote_reader_guid.prefix == participant_to_update,
-                (Some(participant_to_update), Sample::Dispose(guid)) =>
-                  guid.prefix == participant_to_update,
-              })
           .collect(),
         Err(e) => {
           error!("handle_subscription_reader: {e:?}");
@@ -1102,7 +1096,7 @@ impl Discovery {
             self.send_discovery_notification(DiscoveryNotificationType::ReaderUpdated {
               discovered_reader_data: drd,
             });
-            if read_history.is_some() {
+            if read_history == Some(d.reader_proxy.remote_reader_guid.prefix) {
               info!(
                 "Rediscovered reader {:?} topic={:?}",
                 d.reader_proxy.remote_reader_guid,
@@ -1132,18 +1126,10 @@ impl Discovery {
         // a lot of cloning here, but we must copy the data out of the
         // reader before we can use self again, as .read() returns references to within
         // a reader and thus self
+        // As in handle_subscription_reader: the samples are taken out of the reader, so all
+        // of them are processed, whichever participant triggered this call.
         Ok(ds) => ds
           .map(|d| d.map_dispose(|g| g.0)) // map_dispose removes Endpoint_GUID wrapper around GUID
-          // If a participant was specified, we must match its GUID prefix.
-          .filter(|d| match (read_history, d) {
-            (None, _) => true, // Not asked to filter by participant
-            (Some(participant_to_update), Sample::Value(dwd)) => {
-              dwd.writer_proxy.remote_writer_guid.prefix == participant_to_update
-            }
-            (Some(participant_to_update), Sample::Dispose(guid)) => {
-              guid.prefix == participant_to_update
-            }
-          })
           .collect(),
         Err(e) => {
           error!("handle_publication_reader: {e:?}");
@@ -1174,6 +1160,13 @@ impl Discovery {
               discovered_writer_data,
             });
             debug!("Discovered Writer {:?}", &dwd);
+            if read_history == Some(dwd.writer_proxy.remote_writer_guid.prefix) {
+              info!(
+                "Rediscovered writer {:?} topic={:?}",
+                dwd.writer_proxy.remote_writer_guid,
+                dwd.publication_topic_data.topic_name()
+              );
+            }
           }
           Sample::Dispose(writer_key) => {
             discovery_db_write(&self.discovery_db).remove_topic_writer(writer_key);
